@@ -147,6 +147,8 @@ def merge(results):
         for k, v in r.get('extra', {}).items():
             if isinstance(v, (int, float)) and not isinstance(v, bool) and k.startswith('n_'):
                 m['extra'][k] = m['extra'].get(k, 0) + v
+            elif k == 'case_alarms':
+                m['extra'].setdefault(k, []).extend(v)
             else:
                 m['extra'].setdefault(k, v)
         if 'step_budget' in r:
@@ -260,7 +262,8 @@ def report(prop, mod, tier, seed, ns, m, problems, wall, replay):
             m['n_oracle_errors'], (m['oracle_errors'][0] or {}).get('trace', '') if m['oracle_errors'] else ''))
     if m['extra'].get('n_case_alarms'):
         inconclusive.append('%d cases were abandoned by the no-progress wall-clock alarm (a call did not return '
-                            'within the alarm period): hang suspected, judged by C09/C10 only' % m['extra']['n_case_alarms'])
+                            'within the alarm period): hang suspected, judged by C09/C10 only; where: %s' % (
+                                m['extra']['n_case_alarms'], json.dumps(m['extra'].get('case_alarms', [])[:5])))
     min_eval = getattr(mod, 'MIN_EVAL', 50)
     if not replay and m['evaluations'] < min_eval:
         inconclusive.append('deciding monitor evaluated %d cases (< %d)' % (m['evaluations'], min_eval))
